@@ -162,7 +162,8 @@ struct World {
   // "announced change": every SrcChanged the manager issues for the source attached to pictogram P (DESIGN C19)
   void OnAnnounce(fakesrc::Source& src, bool coreChanged, uint64_t seq) {
     if (!coreChanged || !ossLive || oss == nullptr) return;
-    const auto pid = oss->Src().Src2PID(src);
+    auto pid = oss->Src().Src2PID(src);
+    if (!pid.has_value()) for (const auto p : Picts()) if (SourceOf(p) == &src) { pid = p; break; }   // announced while (re)opening: not attached yet, named by the handle
     if (!pid.has_value()) return;
     for (const auto child : oss->Graph().ChildrenOf(*pid)) {
       const auto* handle = oss->Src()(child);
@@ -461,6 +462,10 @@ struct Sys {
         if (editFlags & 2) ops.push_back({ K_EDIT, i, e, 1 });
       }
     }
+    if (on(K_EDIT) && (editFlags & 4)) for (int i = 0; i < n; ++i) if (!isOp(i)) {   // the document of a base pictogram changes while it is closed (another session)
+      const auto* src = w.SourceOf(picts[static_cast<size_t>(i)]);
+      if (src != nullptr && !src->IsOpened()) ops.push_back({ K_EDIT, i, kEditAddBase, 2 });
+    }
     if (on(K_ANNOUNCE)) for (int i = 0; i < n; ++i) if (const auto* src = w.AttachedOpen(picts[static_cast<size_t>(i)]); src != nullptr && !src->IsSaved()) ops.push_back({ K_ANNOUNCE, i, 0, 0 });
     if (on(K_CLOSE)) for (int i = 0; i < n; ++i) if (w.AttachedOpen(picts[static_cast<size_t>(i)]) != nullptr) ops.push_back({ K_CLOSE, i, 0, 0 });
     if (on(K_OPEN)) for (int i = 0; i < n; ++i) {
@@ -481,7 +486,7 @@ struct Sys {
     case K_INIT: return "InitFor(" + p(op.a) + "," + (op.b == kInitMerge ? "merge" : op.b == kInitSyntFF ? "synt{first=first}" : op.b == kInitSyntFL ? "synt{first=last}" : op.b == kInitSyntLF ? "synt{last=first}" : "synt{42=42}") + ")";
     case K_EXEC: return "Execute(" + p(op.a) + ")";
     case K_EXEC_ALL: return "ExecuteAll";
-    case K_EDIT: return std::string("Edit(") + p(op.a) + "," + (op.b == kEditAddBase ? "add-base" : op.b == kEditAddTerm ? "add-term" : op.b == kEditErase ? "erase-first-own" : op.b == kEditAddPair ? "add-pair(first mentions second)" : "retext-first-own") + (op.c ? ",announce)" : ",pending)");
+    case K_EDIT: return std::string("Edit(") + p(op.a) + "," + (op.b == kEditAddBase ? "add-base" : op.b == kEditAddTerm ? "add-term" : op.b == kEditErase ? "erase-first-own" : op.b == kEditAddPair ? "add-pair(first mentions second)" : "retext-first-own") + (op.c == 2 ? ",while-closed)" : op.c ? ",announce)" : ",pending)");
     case K_ANNOUNCE: return "Announce(" + p(op.a) + ")";
     case K_CLOSE: return "Close(" + p(op.a) + ")";
     case K_OPEN: return "Open(" + p(op.a) + ")";
@@ -643,6 +648,11 @@ struct Sys {
       break;
     }
     case K_EDIT: {
+      if (op.c == 2) {   // offline: the closed document gets one more base set and is stored again, unannounced
+        auto* closed = w.SourceOf(pid(op.a));
+        if (closed != nullptr && !closed->IsOpened()) { closed->OfflineEdit([](RSForm& f) { f.Emplace(CstType::base); }); outcome += "offline+"; } else outcome += "offline-";
+        break;
+      }
       auto* src = w.AttachedOpen(pid(op.a));
       bool done = false;
       if (src != nullptr) {
@@ -808,6 +818,10 @@ int main(int argc, char** argv) {
     sys.editKinds = (1U << kEditAddBase) | (1U << kEditErase); sys.editFlags = 1; sys.editBasesOnly = true; sys.saveOrders = 1;
     sys.seedMask = 0xC; sys.policies = 1; depth = opt.thorough() ? 4 : 3;
   }
+  else if (opt.mode == "closed") {   // documents closed, changed while closed (another session) and re-opened implicitly by an execution or explicitly
+    sys.kinds = bit(K_EXEC) | bit(K_EXEC_ALL) | bit(K_EDIT) | bit(K_CLOSE) | bit(K_OPEN);
+    sys.editKinds = 0; sys.editFlags = 4; sys.seedMask = 0xC; sys.policies = 1; depth = opt.thorough() ? 4 : 3;
+  }
   else { fprintf(stderr, "unknown mode\n"); return 2; }
   depth = static_cast<int>(opt.num("depth", depth));
   sys.seedMask = static_cast<unsigned>(opt.num("seeds", sys.seedMask));
@@ -841,7 +855,7 @@ int main(int argc, char** argv) {
                  ((sys.kinds & bit(K_INSERT_BASE)) ? "InsertBase; " : "") + ((sys.kinds & bit(K_CONNECT)) ? "ConnectPict2Src(base, new source with schema in {X1 | X1,D1:=X1\\X1 | empty}); " : "") +
                  ((sys.kinds & bit(K_INSERT_OP)) ? "InsertOperation(p,q) all ordered pairs incl. p=q + missing operands; " : "") + ((sys.kinds & bit(K_ERASE)) ? "Erase(p) every pictogram + missing; " : "") +
                  ((sys.kinds & bit(K_INIT)) ? "InitFor(o, merge | synt{1-entry table on the parents' base sets} | synt{42=42}); " : "") + ((sys.kinds & bit(K_EXEC)) ? "Execute(o) every operation + one base; " : "") +
-                 ((sys.kinds & bit(K_EXEC_ALL)) ? "ExecuteAll; " : "") + ((sys.kinds & bit(K_EDIT)) ? "Edit(p, {" + std::string((sys.editKinds & 1) ? "add base set " : "") + ((sys.editKinds & 2) ? "| add term " : "") + ((sys.editKinds & 4) ? "| erase first own constituent " : "") + ((sys.editKinds & 8) ? "| change a term text only" : "") + ((sys.editKinds & 16) ? " | add two terms to an operation's result, the first listed mentions the second" : "") + "}) x {" +
+                 ((sys.kinds & bit(K_EXEC_ALL)) ? "ExecuteAll; " : "") + ((sys.kinds & bit(K_EDIT)) ? "Edit(p, {" + std::string((sys.editKinds & 1) ? "add base set " : "") + ((sys.editKinds & 2) ? "| add term " : "") + ((sys.editKinds & 4) ? "| erase first own constituent " : "") + ((sys.editKinds & 8) ? "| change a term text only" : "") + ((sys.editKinds & 16) ? " | add two terms to an operation's result, the first listed mentions the second" : "") + ((sys.editFlags & 4) ? " | add a base set to the CLOSED document of a base pictogram (stored by another session, unannounced)" : "") + "}) x {" +
                    ((sys.editFlags & 1) ? "pending " : "") + ((sys.editFlags & 2) ? "announced" : "") + "} on every attached source" + (sys.editBasesOnly ? " of a base pictogram; " : " incl. operation results (= user additions); ") : std::string()) +
                  ((sys.kinds & bit(K_ANNOUNCE)) ? "Announce(p)=SaveState; " : "") + ((sys.kinds & bit(K_CLOSE)) ? "Close(p); " : "") + ((sys.kinds & bit(K_OPEN)) ? "Open(p); " : "") +
                  ((sys.kinds & bit(K_SAVELOAD)) ? (sys.saveOrders > 1 ? "save->load of the whole document via JSON (items as stored | reversed | connections interleaved by child); " : "save->load of the whole document via JSON; ") : "") +
